@@ -199,6 +199,15 @@ func (s *Stream) FlipBitAt(off int64) {
 	s.out.flipAt = off
 	s.out.mu.Unlock()
 }
+// FailNow makes the peer's reads of this direction fail with err once the bytes
+// already written have been consumed... (errors overtake buffered data, like a
+// QUIC reset): use CloseWrite for a clean end after the buffered bytes.
+func (s *Stream) FailNow(err error) { s.out.fail(err) }
+
+// CloseWrite ends this direction cleanly (FIN): the peer reads the buffered
+// bytes, then io.EOF.  Unlike Close it leaves the read direction usable.
+func (s *Stream) CloseWrite() { s.out.closeWrite() }
+
 func (s *Stream) Written() int64 {
 	s.out.mu.Lock()
 	defer s.out.mu.Unlock()
